@@ -27,6 +27,7 @@ fields and for fixed-width padding), RegEx rules get no nested quantifiers, RegE
 import contextlib
 import csv
 import io
+import json
 import logging
 import os
 import re
@@ -1080,7 +1081,66 @@ def selftest():
                         raise HarnessError("unsafe DistinctCount rule %r" % (value,))
 
 
+def _fuzz_cid_worker(args):
+    """One atheris campaign (thorough tier) on CIDs with fuzzed cells; the exception-type oracle is in the target."""
+    import shutil
+    import subprocess
+    import tempfile
+
+    from vlib.runner import VERIF
+
+    seed, runs = args
+    sub = Sub("atheris-cid")
+    scratch = tempfile.mkdtemp(prefix="c10-fuzz-")
+    try:
+        out = os.path.join(scratch, "out.json")
+        corpus = os.path.join(scratch, "corpus")
+        os.makedirs(corpus)
+        env = dict(os.environ, PYTHONPATH=VERIF + os.pathsep + os.path.join(VERIF, ".deps"))
+        proc = subprocess.run([sys.executable, "-m", "vlib.fuzz_cid", out, "-runs=%d" % runs, "-seed=%d" % seed,
+                               "-artifact_prefix=" + scratch + os.sep, "-max_len=128", corpus],
+                              cwd=VERIF, env=env, stdout=subprocess.PIPE, stderr=subprocess.STDOUT, text=True)
+        if "No module named 'atheris'" in proc.stdout:
+            sub.notes["atheris"] = "not available: fuzz campaign skipped"
+            return sub
+        stats = {}
+        if os.path.exists(out + ".stats"):
+            with open(out + ".stats") as f:
+                stats = json.load(f)
+        sub.bulk(stats.get("cases", 0), 0, {"atheris-cid:executions": stats.get("executions", 0),
+                                          "atheris-cid:loaded": stats.get("loaded", 0),
+                                          "atheris-cid:refused": stats.get("refused", 0)})
+        if os.path.exists(out):
+            with open(out) as f:
+                found = json.load(f)
+            sub.fail(found["signature"], found["case"], found["message"])
+    finally:
+        shutil.rmtree(scratch, ignore_errors=True)
+    return sub
+
+
+def _replay_fuzz_cid(sub, case):
+    from cutplace import errors as cutplace_errors
+    from cutplace import interface as cutplace_interface
+
+    sub.evaluations += 1
+    try:
+        cid = cutplace_interface.Cid()
+        cid.read("fuzzed", [list(r) for r in case["fuzz_cid_rows"]])
+    except cutplace_errors.InterfaceError:
+        pass
+    except Exception as error:
+        import traceback
+
+        frames = [f for f in traceback.extract_tb(error.__traceback__) if "/cutplace/" in f.filename]
+        where = "%s:%s" % (frames[-1].filename.rsplit("/", 1)[-1], frames[-1].name) if frames else "?"
+        sub.fail("C10|fuzz-cid-load|%s|%s" % (type(error).__name__, where), case,
+                 "Cid.read raised %s: %s" % (type(error).__name__, error))
+
+
 def run(ctx):
+    if not ctx.quick:
+        ctx.par(_fuzz_cid_worker, [(ctx.seed * 100 + i + 1, 250000) for i in range(12)])
     with scratch_root():
         selftest()
         sizes = {}
@@ -1103,5 +1163,8 @@ def run(ctx):
 
 
 def replay(sub, case):
+    if "fuzz_cid_rows" in case:
+        _replay_fuzz_cid(sub, case)
+        return
     with scratch_root():
         check_case(sub, case)
